@@ -68,3 +68,11 @@ Example C13_nonvacuous :
   sr_tree r !! 1%nat = Some [8]%Z /\ sr_tree r !! 2%nat = Some [3]%Z /\ sr_tree r !! 5%nat = Some [9]%Z /\
   sr_sent r = 2%nat /\ sr_conflicts r = 0%nat.
 Proof. vm_compute. repeat split. Qed.
+
+(** The model the theorems above are about is the translation of src/bin/copia/wire.rs cas_decide as it is now: the function
+    generated from the source by tools/gen_logic.py (Gen/CasGen.v) equals, on every input, the decision `current hash = expected` of Model/Hub.v (spec and step)
+    (statement: Proofs/TieCas.v, [cas_model_is_translation]). *)
+Require Copia.Proofs.TieCas.
+Theorem C13_model_is_translation_of_source : TieCas.cas_model_is_translation.
+Proof. exact TieCas.cas_model_is_translation_holds. Qed.
+Print Assumptions C13_model_is_translation_of_source.
